@@ -80,3 +80,32 @@ package db
 //@   ensures result1 == nil ==> len(ret0(List)[0]) == len(key) + 31
 //@   ensures result1 == nil ==> result0 == ret0(List)[1]
 //@   ensures called(getVersion) && ret1(getVersion) == nil && ret0(getVersion) <= version ==> result1 == nil
+
+// ---- C08: the layered local database as one map with an optional open transaction ------------------
+// view(l) = (intx ? tx : {}) (+) cache (+) main, looked up in that order.
+//@ smt (define-fun lvhas ((intx Bool) (txnil Bool) (th (Array Bytes Bool)) (cnil Bool) (ch (Array Bytes Bool)) (mh (Array Bytes Bool)) (k Bytes)) Bool (or (and intx (not txnil) (select th k)) (and (not cnil) (select ch k)) (select mh k)))
+//@ smt (define-fun lvval ((intx Bool) (txnil Bool) (th (Array Bytes Bool)) (tv (Array Bytes Bytes)) (cnil Bool) (ch (Array Bytes Bool)) (cv (Array Bytes Bytes)) (mv (Array Bytes Bytes)) (k Bytes)) Bytes (ite (and intx (not txnil) (select th k)) (select tv k) (ite (and (not cnil) (select ch k)) (select cv k) (select mv k))))
+
+// lookup order tx, cache, main; a hit in main is copied into the cache, which does not change the view
+//@ func (*LocalDB).get [C08]
+//@   opt safety=assumed panics=allowed
+//@   requires l.maindb != nil
+//@   requires l.cache != l.maindb && l.txcache != l.maindb && (l.cache == nil || l.cache != l.txcache)
+//@   frame allocates, *.kvhas, *.kvval
+//@   ensures result1 == nil ==> lvhas(l.intx, l.txcache == nil, old(l.txcache.kvhas), l.cache == nil, old(l.cache.kvhas), old(l.maindb.kvhas), bytes(key))
+//@   ensures result1 == nil ==> bytes(result0) == lvval(l.intx, l.txcache == nil, old(l.txcache.kvhas), old(l.txcache.kvval), l.cache == nil, old(l.cache.kvhas), old(l.cache.kvval), old(l.maindb.kvval), bytes(key))
+//@   ensures result1 != nil ==> !lvhas(l.intx, l.txcache == nil, old(l.txcache.kvhas), l.cache == nil, old(l.cache.kvhas), old(l.maindb.kvhas), bytes(key))
+//@   ensures forall k Bytes :: lvhas(l.intx, l.txcache == nil, l.txcache.kvhas, l.cache == nil, l.cache.kvhas, l.maindb.kvhas, k) == lvhas(l.intx, l.txcache == nil, old(l.txcache.kvhas), l.cache == nil, old(l.cache.kvhas), old(l.maindb.kvhas), k)
+//@   ensures forall k Bytes :: lvhas(l.intx, l.txcache == nil, l.txcache.kvhas, l.cache == nil, l.cache.kvhas, l.maindb.kvhas, k) ==> lvval(l.intx, l.txcache == nil, l.txcache.kvhas, l.txcache.kvval, l.cache == nil, l.cache.kvhas, l.cache.kvval, l.maindb.kvval, k) == lvval(l.intx, l.txcache == nil, old(l.txcache.kvhas), old(l.txcache.kvval), l.cache == nil, old(l.cache.kvhas), old(l.cache.kvval), old(l.maindb.kvval), k)
+//@   ensures l.maindb.kvhas == old(l.maindb.kvhas) && l.maindb.kvval == old(l.maindb.kvval) && l.txcache.kvhas == old(l.txcache.kvhas) && l.txcache.kvval == old(l.txcache.kvval)
+
+// opening a transaction starts with an empty overlay; rolling back discards exactly the overlay
+//@ func (*LocalDB).Begin [C08]
+//@   ensures l.intx && l.txcache == nil
+//@   ensures l.cache == old(l.cache) && l.maindb == old(l.maindb)
+//@ func (*LocalDB).resetTx [C08]
+//@   ensures !l.intx && l.txcache == nil
+//@   ensures l.cache == old(l.cache) && l.maindb == old(l.maindb)
+//@ func (*LocalDB).Rollback [C08]
+//@   ensures !l.intx && l.txcache == nil
+//@   ensures l.cache == old(l.cache) && l.maindb == old(l.maindb)
